@@ -399,6 +399,11 @@ func (env *venv) driveText(rp *reporter, js []byte, level int) (accepted int) {
 			if p == nil {
 				panic("UntrustedEvents returned a nil PDU")
 			}
+			// events kept in spite of a "persistable" size error: what federation responses hand on
+			if len(pdus) == 0 {
+				pdus = append(pdus, p)
+				names = append(names, "untrusted-events")
+			}
 		}
 		(gmsl.EventJSONs{js}).TrustedEvents(gmsl.RoomVersion(env.version), false)
 	})
